@@ -211,3 +211,54 @@ func Dial(addr string, opts ...grpc.DialOption) (*grpc.ClientConn, error) {
 	all := append([]grpc.DialOption{grpc.WithTransportCredentials(insecure.NewCredentials())}, opts...)
 	return grpc.NewClient("passthrough:///"+addr, all...)
 }
+
+// ---- multi-node clusters ---------------------------------------------------------------------------
+
+// StartCluster starts n engines forming ONE regatta cluster (one metadata raft group, every table replicated on all nodes), each on
+// its own in-memory file systems, talking raft and gossip over loopback.
+func StartCluster(n int, o Opts) ([]*Fixture, error) {
+	quiet()
+	var lastErr error
+	for attempt := 0; attempt < 4; attempt++ {
+		members := map[uint64]string{}
+		var gossip []string
+		for i := 1; i <= n; i++ {
+			members[uint64(i)] = fmt.Sprintf("127.0.0.1:%d", FreePort())
+			gossip = append(gossip, fmt.Sprintf("127.0.0.1:%d", FreePort()))
+		}
+		cname := fmt.Sprintf("mc%d", FreePort())
+		fxs := make([]*Fixture, n)
+		errs := make([]error, n)
+		var wg sync.WaitGroup
+		for i := 1; i <= n; i++ {
+			cfg := storage.Config{
+				NodeID: uint64(i), InitialMembers: members, WALDir: "/wal", NodeHostDir: "/nh", RTTMillisecond: 5, RaftAddress: members[uint64(i)],
+				Gossip: storage.GossipConfig{BindAddress: gossip[i-1], InitialMembers: gossip, ClusterName: cname, NodeName: fmt.Sprintf("n%d", i)},
+				Table: storage.TableConfig{
+					FS: pvfs.NewMem(), TableCacheSize: 1024, ElectionRTT: 10, HeartbeatRTT: 1,
+					MaxInMemLogSize: o.MaxInMemLogSize, SnapshotEntries: o.SnapshotEntries, CompactionOverhead: o.CompactionOverhead,
+					RecoveryType: o.RecoveryType, AppliedIndexListener: o.Applied, DataDir: "/tables",
+				},
+				Meta: storage.MetaConfig{ElectionRTT: 10, HeartbeatRTT: 1},
+				FS:   lvfs.NewMem(), Log: zap.NewNop().Sugar(), LogCacheSize: o.LogCacheSize,
+			}
+			fxs[i-1] = &Fixture{Cfg: cfg, opts: o}
+			wg.Add(1)
+			go func(i int) { defer wg.Done(); errs[i] = fxs[i].boot() }(i - 1)
+		}
+		wg.Wait()
+		lastErr = nil
+		for _, e := range errs {
+			if e != nil {
+				lastErr = e
+			}
+		}
+		if lastErr == nil {
+			return fxs, nil
+		}
+		for _, f := range fxs {
+			_ = f.Stop()
+		}
+	}
+	return nil, lastErr
+}
